@@ -77,7 +77,16 @@ def gen(rng, i):
         cfg = pl.UNIFORM[rng.choice(["a8w8", "a8sw8t", "a16w8"])]
         cmds = [{"k": "add", "regex": ".*", "operation": "*", "cfg": cfg, "alg": "min_max_uniform_quantize"}]
         return fp.Case(mb, info, cmds=cmds, data=data, desc=[("tied", cfg["act"]["bits"], cfg["weight"]["bits"])])
-    mb, info = gm.gen_model(rng, n_ops=rng.randint(1, 4), n_subgraphs=1, p_unsupported=0.1, alias_sig=0.0,
+    if i % 11 == 9:
+        # operator OPTIONS: pools / convolutions / fully-connected with a fused activation (the integer average pool averages raw codes:
+        # it needs input and output on ONE scale whatever the fused activation clips)
+        mb, info = gm.gen_model(rng, n_ops=rng.randint(2, 3), n_subgraphs=1, p_unsupported=0.0, alias_sig=0.0, const_kinds=gm.BENIGN_KINDS,
+                                fused_act=0.85, kinds=["CONV_2D", "AVERAGE_POOL_2D", "AVERAGE_POOL_2D", "AVERAGE_POOL_2D", "FULLY_CONNECTED"])
+        cfg = pl.UNIFORM[rng.choice(["a8w8", "a8sw8t", "a16w8"])]
+        cmds = [{"k": "add", "regex": ".*", "operation": "*", "cfg": cfg, "alg": "min_max_uniform_quantize"}]
+        info["tags"].add("fused_activation_options")
+        return fp.Case(mb, info, cmds=cmds, data=gm.random_inputs(mb, rng, n=1, scale=1.0), desc=[("fused activations", cfg["act"]["bits"])])
+    mb, info = gm.gen_model(rng, n_ops=rng.randint(1, 4), n_subgraphs=1, p_unsupported=0.1, alias_sig=0.0, fused_act=0.25,
                              const_kinds=gm.BENIGN_KINDS if i % 6 else None)
     cfg = pl.UNIFORM[rng.choice(["a8w8", "a8w8", "a8sw8t", "a16w8", "a8w4", "a16w4", "a8sw4t"])]
     # 16-bit activations resolve magnitudes of 1e-4 with scales below 1e-8: small numbers are where tolerant comparisons go wrong
